@@ -377,3 +377,10 @@ def tasks(tier):
     shared = [('bracket_first', C10.mk_first(tier)), ('bracket_last', C10.mk_last(tier)), ('bracket_exclusive', C10.mk_excl(tier)), ('bracket_wiring', C10.t_wiring), ('bracket_start_end', C10.t_start_end),
               ('bracket_start_deleverage', C10.mk_bracket('start_deleverage')), ('bracket_end_deleverage', C10.mk_bracket('end_deleverage'))]
     return _t_c12e(tier) + [(n, _renamed(t, 'C10.', 'C12.e.')) for n, t in shared]
+
+
+
+# ---------------------------------------------------------------- second engine (thorough tier): one obligation re-decided by Kani/CBMC on the compiled code
+def kani(tier):
+    if tier != 'thorough': return []
+    return [dict(harness='withdraw_window', oid='C12.k', covers=2, stubs=5, desc='SECOND ENGINE (Kani/CBMC on the compiled code): update_withdrawn_equity == an independent reference of the rolling 24h window, for all u32 counters / limits, all i64 timestamps, all values below 2^32 dollars', functions=['marginfi::state::marginfi_group::MarginfiGroupImpl::update_withdrawn_equity'], bounds='loop-free; value < 2^32 (whole part u32, any 48-bit fraction)')]
